@@ -181,3 +181,11 @@ Proof. vm_compute. reflexivity. Qed.
 (* the argument runs to the end of the text and ends in a truncated UTF-8 byte *)
 Example ex_pragma_eof : scanForPragmaArg js_ws false 0 1 [61;97;195] = Ok (Some ([97;195], 1, 2)).
 Proof. vm_compute. reflexivity. Qed.
+
+(* }b${ : a template middle; }b` : a template tail; }b : unterminated (syntax error) *)
+Example ex_js_template_middle : run_jstemplate_tail [125;98;36;123;99] = Ok (Some (5, 4, 1)).
+Proof. vm_compute. reflexivity. Qed.
+Example ex_js_template_tail : run_jstemplate_tail [125;98;96;59] = Ok (Some (4, 3, 1)).
+Proof. vm_compute. reflexivity. Qed.
+Example ex_js_template_unterminated : run_jstemplate_tail [125;98] = Ok None.
+Proof. vm_compute. reflexivity. Qed.
